@@ -60,26 +60,39 @@ impl Ctx {
     /// step everybody until nothing has been received and nothing is queued for `silent` rounds
     fn drain(&mut self, cap: usize) -> (bool, usize) {
         let mut silent = 0;
-        for round in 0..cap {
+        // a download runs on a worker thread in real time: rounds spent waiting for one are slept through and, for up to five
+        // seconds in all, not counted against the cap (a loaded machine can take a second to serve one request)
+        let mut waited = std::time::Duration::ZERO;
+        let mut cap = cap;
+        let mut round = 0;
+        while round < cap {
             let before = self.s.trace.len();
             for p in 0..self.peers() {
                 self.s.step(p);
             }
             let mut quiet = true;
+            let mut only_transfers = true;
             for v in &self.s.trace[before..] {
                 if v["ev"] == "frame" {
                     if v["recv"].as_array().map(|a| !a.is_empty()).unwrap_or(false) {
                         quiet = false;
+                        only_transfers = false;
                     }
                     let st = &v["state"];
                     if st["tracker"]["queue"].as_array().map(|a| !a.is_empty()).unwrap_or(false) {
                         quiet = false;
+                        only_transfers = false;
                     }
                     if st["marks"].as_u64().unwrap_or(0) > 0 {
                         quiet = false;
+                        only_transfers = false;
                     }
                     if let Some(x) = st["xfer"].as_object() {
-                        if x["to_apply"].as_u64().unwrap_or(0) + x["queued"].as_u64().unwrap_or(0) + x["active"].as_u64().unwrap_or(0) > 0 {
+                        if x["to_apply"].as_u64().unwrap_or(0) > 0 {
+                            quiet = false;
+                            only_transfers = false;
+                        }
+                        if x["queued"].as_u64().unwrap_or(0) + x["active"].as_u64().unwrap_or(0) > 0 {
                             quiet = false;
                         }
                     }
@@ -88,13 +101,20 @@ impl Ctx {
             if self.s.panicked.is_some() {
                 return (false, round);
             }
+            round += 1;
             if quiet {
                 silent += 1;
                 if silent >= 3 {
-                    return (true, round + 1);
+                    return (true, round);
                 }
             } else {
                 silent = 0;
+                if only_transfers && waited < std::time::Duration::from_secs(5) {
+                    let t = std::time::Duration::from_millis(2);
+                    std::thread::sleep(t);
+                    waited += t;
+                    cap += 1;
+                }
             }
         }
         (false, cap)
@@ -804,6 +824,52 @@ fn history(family: &str, seed: u64, idx: usize, thorough: bool, out: &mut impl W
                 }
                 let d = c.drain(80);
                 c.s.trace.push(json!({"ev":"drain","quiescent":d.0,"rounds":d.1}));
+            }
+            // one history in twelve: a wide world — more than a thousand entities whose component is written in one and the same
+            // frame of one peer (a simulation step touching everything), once or in consecutive frames
+            if idx % 12 == 7 {
+                let w = if c.rng.chance(1, 2) { 0 } else { c.any_peer() };
+                let n = c.rng.range(1100, 1500);
+                c.s.trace.push(json!({"ev":"epoch","writer":w,"crowd":n}));
+                let mut hs = vec![];
+                for k in 0..n {
+                    let h = c.fresh();
+                    c.s.spawn(w, h, true, &[CVal::new(Ty::A, k as i64)], None);
+                    hs.push(h);
+                    if k % 50 == 49 {
+                        c.lockstep(1);
+                    }
+                }
+                let d = c.drain(300);
+                c.s.trace.push(json!({"ev":"drain","quiescent":d.0,"rounds":d.1}));
+                let rounds = c.rng.range(1, 3);
+                c.s.trace.push(json!({"ev":"wide","writer":w,"hs":hs,"ty":"A","rounds":rounds}));
+                for r in 0..rounds {
+                    for (k, h) in hs.iter().enumerate() {
+                        c.s.write(w, *h, &CVal::new(Ty::A, (r as i64 + 1) * 10_000 + k as i64), &[]);
+                    }
+                    c.s.step(w);
+                }
+                // bounded wait (a frame's worth of a thousand messages can overrun the socket buffer: renet resends in real time)
+                for _ in 0..250 {
+                    c.lockstep(1);
+                    let mut all = true;
+                    for h in hs.iter().rev().take(100).chain(hs.iter().take(100)) {
+                        let want = c.s.local_entity(w, *h).and_then(|e| c.s.comp_bytes(w, e, Ty::A));
+                        for p in 0..c.peers() {
+                            let got = c.s.local_entity(p, *h).and_then(|e| c.s.comp_bytes(p, e, Ty::A));
+                            if got != want {
+                                all = false;
+                            }
+                        }
+                    }
+                    if all || c.s.panicked.is_some() {
+                        break;
+                    }
+                    std::thread::sleep(std::time::Duration::from_millis(8));
+                }
+                let d = c.drain(80);
+                c.s.trace.push(json!({"ev":"drain","quiescent":d.0,"rounds":d.1,"wide":true}));
             }
         }
         "parent" => {
@@ -1584,7 +1650,10 @@ fn history(family: &str, seed: u64, idx: usize, thorough: bool, out: &mut impl W
                 c.s.trace.push(json!({"ev":"drain","quiescent":d.0,"rounds":d.1}));
             }
             // the join: one writer keeps changing things while a new client connects and / or an old one returns
-            let w = c.any_peer();
+            // (one history in three: the writer is an established client and sets a parent link in every round of the join, so
+            // that the host reads a link to relay in the very poll in which it reads the joiner's request)
+            let links = idx % 3 == 2 && c.nclients >= 1;
+            let w = if links { 1 + c.rng.below(c.nclients as usize) as u32 } else { c.any_peer() };
             let variant = c.rng.below(4);
             let mut comers: Vec<u32> = vec![];
             if variant >= 2 && c.nclients >= 1 {
@@ -1637,9 +1706,21 @@ fn history(family: &str, seed: u64, idx: usize, thorough: bool, out: &mut impl W
                     }
                 }
                 // the handshake and the snapshot run while the writer goes on
-                for _ in 0..c.rng.below(14) {
+                let rounds_now = if links { c.rng.range(8, 16) } else { c.rng.below(14) };
+                for _ in 0..rounds_now {
                     for _ in 0..c.rng.below(3) {
                         op(&mut c, w, &mut assets);
+                    }
+                    if links && c.live.len() >= 2 {
+                        let a = *c.rng.pick(&c.live.clone());
+                        let b = *c.rng.pick(&c.live.clone());
+                        if b < a {
+                            c.s.set_parent(w, a, b);
+                        }
+                        if c.rng.chance(1, 2) {
+                            c.lockstep(1);
+                            continue;
+                        }
                     }
                     c.random_steps();
                 }
